@@ -18,11 +18,16 @@ TRUSTED = [
 RULE = ("direct oracle: for every kind x sample: load, tag, save (growing), reload, save (shrinking), delete executed through str path, bytes path, "
         "pathlib.Path, an open real file, io.BytesIO, a minimal object with only the documented methods (both negative-seek conventions), and the "
         "filename=/fileobj= keyword forms; final bytes, reloaded tags and exception class must agree pairwise with the BytesIO run; the minimal object "
-        "records every attribute request; caller-supplied objects must stay open. correspondence: get_size/seek_end/read_full on all files of length <= 6, "
+        "records every attribute request and enforces the documented contracts (no truncate beyond the current size); caller-supplied objects must stay open; "
+        "loading through an object that has ONLY read/seek/tell (positional, keyword, mutagen.File); cross-way histories (loaded from a path, saved/deleted "
+        "through a stream and the reverse: the file GIVEN is the one acted on); mutagen.File picks the same type and leaves .filename as the type called "
+        "directly does, for paths, path objects and real file objects opened through str and bytes paths (also on ID3-prefixed copies whose type the "
+        "extension decides). correspondence: get_size/seek_end/read_full on all files of length <= 6, "
         "positions and offsets in -1..8, both flavours, vs the extracted hand model. non-trivial = the history changed the file; distinct by (kind, sample, way)")
 MANIFEST = {
     "text": "partial: theorems for the logic core (the regenerated resize family gives identical outcome and bytes under both seek conventions for all arguments; "
-            "seek_end never targets a negative offset; ownership/closing rule) + the whole-format statement by differential testing over nine ways of passing a file",
+            "seek_end never targets a negative offset; ownership/closing rule) + the whole-format statement by differential testing over ten ways of passing a file, "
+            "load-only objects, cross-way histories and type detection across ways",
     "note": "Not covered: Python's open/os.fspath/buffering (runtime). Format-level operations are compared across file-things by the direct oracle (a search), "
             "they are not proved flavour independent individually; every negative-target seek in mutagen that bypasses seek_end would show up there.",
     "technique": "Coq proof (case split over the C11 specifications of py2v-generated code) + pairwise differential testing across file-thing kinds with a minimal-interface object",
